@@ -151,6 +151,29 @@ Section Validator.
         Ok (if keep then p :: rest else rest)
     end.
 
+  (* the loop "for key in keys_copy" of get_versioned_properties over the items
+     of one dict; [rec] is the recursive call self.get_versioned_properties *)
+  Fixpoint gvp_items (rec : store -> json -> res (json * store)) (version : num)
+           (l : list (str * json)) (st : store) : res (list (str * json) * store) :=
+    match l with
+    | [] => Ok ([], st)
+    | (key, v) :: l' =>
+        match subject st v with
+        | JObj _ =>
+            do ok <- is_valid_for_version st v version;
+            do (v', st1) <- rec st v;
+            do (rest, st2) <- gvp_items rec version l' st1;
+            Ok ((if ok then (key, v') :: rest else rest), st2)
+        | JArr members =>
+            do valid_list <- filter_valid st version members;
+            do (rest, st2) <- gvp_items rec version l' st;
+            Ok ((key, JArr valid_list) :: rest, st2)
+        | _ =>
+            do (rest, st2) <- gvp_items rec version l' st;
+            Ok ((key, v) :: rest, st2)
+        end
+    end.
+
   (* Validator.get_versioned_properties(properties, version): [x] is the dict
      (plain or proxy); returns the dict after the call and the store after the
      in-place changes.  A proxy's subject lives in the store and is written
@@ -172,26 +195,7 @@ Section Validator.
         | None =>
             match x with
             | JObj items =>
-                do (items', st') <-
-                   (fix loop (l : list (str * json)) (st : store) : res (list (str * json) * store) :=
-                      match l with
-                      | [] => Ok ([], st)
-                      | (key, v) :: l' =>
-                          match subject st v with
-                          | JObj _ =>
-                              do ok <- is_valid_for_version st v version;
-                              do (v', st1) <- get_versioned_properties fuel' version st v;
-                              do (rest, st2) <- loop l' st1;
-                              Ok ((if ok then (key, v') :: rest else rest), st2)
-                          | JArr members =>
-                              do valid_list <- filter_valid st version members;
-                              do (rest, st2) <- loop l' st;
-                              Ok ((key, JArr valid_list) :: rest, st2)
-                          | _ =>
-                              do (rest, st2) <- loop l' st;
-                              Ok ((key, v) :: rest, st2)
-                          end
-                      end) items st;
+                do (items', st') <- gvp_items (get_versioned_properties fuel' version) version items st;
                 Ok (JObj items', st')
             | _ => Err PyAttributeError
             end
